@@ -46,6 +46,8 @@ static void run(const struct inp *in, unsigned mask, long fail, int nullalloc, s
     if (!bad && (E.err_foreign_free || E.err_free_null)) bad = "foreign / NULL pointer passed to free";
     if (!bad && nullalloc && (E.n_alloc || E.n_free)) bad = "injected allocator used although its entries are NULL";
     if (!bad && !nullalloc && (E.n_libc_malloc || E.n_libc_free)) bad = "libc allocator used although an allocator was injected";
+    /* whatever is released on the way out - a seed block or any temporary block - was wiped through the injected memzero first */
+    if (E.err_free_unwiped || E.err_free_dirty) { snprintf(key, sizeof key, "c16:free-unwiped:fault:%s", in->name); res_viol(r, key, rep, "%s mask=%u fail_at=%ld: %d block(s) handed to free without having been wiped (%d still holding data)", in->name, mask, fail, E.err_free_unwiped + E.err_free_dirty, E.err_free_dirty); E.err_free_unwiped = E.err_free_dirty = 0; }
     /* the following call behaves normally */
     if (!bad) { polyseed_enable_features(7); polyseed_data *t = NULL; int st2 = polyseed_create(1, &t); r->calls++; if (st2 != POLYSEED_OK) bad = "the call after the fault did not behave normally"; else polyseed_free(t); }
     if (bad) { snprintf(key, sizeof key, "c15:fault:%s:%s", in->name, fail >= 0 ? "alloc-fails" : "alloc-ok"); res_viol(r, key, rep, "%s mask=%u fail_at=%ld libc-allocator=%d: %s", in->name, mask, fail, nullalloc, bad); ledger_drop_all(); }
